@@ -35,7 +35,7 @@ def classify_and_report(ctx, mism, dev_ix, explained, ideal_ix, suffix=""):
 
 
 def run(ctx):
-    c, ideal, caught, rels = S.model(ctx)
+    c, ideal, caught, rels, agent = S.model(ctx)
     binpath = S.build(ctx)
     doc, npaths, nnodes, nedges, nsteps = R.compact_paths(ideal.edges, S.is_init)
     ctx.log("path cover: %d paths, %d steps, %d states, %d transitions" % (npaths, nsteps, nnodes, nedges))
@@ -61,11 +61,30 @@ def run(ctx):
         extra = {"paths": kp, "steps": R.total(ksumm, "steps"), "mismatches": len(kmism), "states": kn, "transitions": ke}
         if kmism:
             jobs = [dict(module=S.MODULE, name="relk" + d, workers=1, cfg=R.cfg_text(c, dev=kd + [d], emit=True))
-                    for d in S.DEVS if d not in kd]
+                    for d in S.MGR_DEVS if d not in kd]
             res = R.tlc_many(ctx, jobs)
-            ix2 = {d: R.index_relation(r.edges, S.base_act) for d, r in zip([d for d in S.DEVS if d not in kd], res)}
+            ix2 = {d: R.index_relation(r.edges, S.base_act) for d, r in zip([d for d in S.MGR_DEVS if d not in kd], res)}
             classify_and_report(ctx, kmism, ix2, explained, R.index_relation(krel.edges, S.base_act), suffix="-behind-known")
+    # ---- agent level: the poll cycle of a whole agent (Agent.doPoll) on the in-memory mesh ---------------------------
+    # reference = the small instance's relation, with the known manager deviation if the manager showed it above
+    ref = "Known" if known else "Ideal"
+    aedges = S.agent_edges(agent["agent" + ref].edges)
+    adoc, ap, an, ae, asteps = R.compact_paths(aedges, S.is_init)
+    window = 1000 if ctx.quick() else 1500
+    asumm, amism = S.agent_replay(ctx, adoc, "ref", window)
+    if asumm["steps"] < asteps and not amism:
+        raise vf.Infra("agent replay executed %d of %d steps without reporting a mismatch" % (asumm["steps"], asteps))
+    if amism:
+        aix = {"DevAgentPollEndIgnoresWake": R.index_relation(S.agent_edges(agent["agentDev" + ref].edges), S.base_act)}
+        ref_ix = R.index_relation(aedges, S.base_act)
+        for mm in sorted(amism, key=lambda m: len(m.get("prefix", []))):
+            devs = R.classify(mm, aix, S.base_act, S.agent_proj, S.agent_same_result, ref_ix) if mm.get("step", -1) >= 0 else []
+            a = mm.get("a", {})
+            key = S.key_of(devs[0]) if devs else "SleepFSM:unexplained-agent:%s:%s" % (a.get("act"), mm.get("real_res"))
+            explained[key] = explained.get(key, 0) + 1
+            ctx.finding(key, S.agent_describe(mm), mm)
     sample = R.expand_path(doc, len(doc["paths"]) // 2)
+    asample = R.expand_path(adoc, 0)
     ctx.evidence("model_checking",
                  assumptions=["bounded model: %d Sleep/Wake calls (any callers: the calls are atomic under stateMu), %d timer "
                               "firings / concurrent poll activities" % (c["MaxCalls"], c["MaxPolls"]),
@@ -73,11 +92,19 @@ def run(ctx):
                               "are 24 h away; PollDuration 1 ms",
                               "OnSleep/OnWake/OnPollEnd run under the state lock (atomic with their call); the OnPoll "
                               "callback is a holding point",
-                              "no crash during persistState (that is C34); Manager.Stop not modelled"],
-                 states=ideal.distinct, transitions=nedges, traces_validated_against_impl=npaths + extra["paths"],
+                              "no crash during persistState (that is C34); Manager.Stop not modelled; Restart = new Manager + "
+                              "LoadState on the same state file, only when no poll activity is in flight",
+                              "agent level: a real agent with a peer on the in-memory mesh, Sleep/Wake as whole calls "
+                              "(TriggerSleep / TriggerWake), %d ms poll window; the window is the only real-time element, a "
+                              "step that comes too late in it is an infrastructure failure" % window],
+                 states=ideal.distinct, transitions=nedges, traces_validated_against_impl=npaths + extra["paths"] + ap,
                  exhaustive=True, replayed_paths=R.total(summ, "paths"), replayed_steps=R.total(summ, "steps"),
                  replay_mismatches=len(mism), state_file_reads=R.total(summ, "state_file_reads"),
                  poll_steps_through_gates=R.total(summ, "poll_steps_through_gates"),
                  tlc_generated=ideal.generated, deviations_caught=caught, mismatches_by_class=explained,
                  known_deviation_relation=extra,
-                 samples=[{"replay_path": [s["a"] for s in sample["steps"]][:16]}])
+                 agent_level={"reference": "agent" + ref, "constants": S.agent_consts(ctx), "states": an, "transitions": ae,
+                              "paths": ap, "steps": asumm["steps"], "poll_windows": asumm["poll_windows"],
+                              "mismatches": len(amism)},
+                 samples=[{"replay_path": [s["a"] for s in sample["steps"]][:16]},
+                          {"agent_replay_path": [s["a"] for s in asample["steps"]]}])
